@@ -27,11 +27,13 @@ type NoteEv struct {
 }
 
 type Case struct {
-	Res     uint16
-	Tempo   []TempoEv  // track 0
-	Others  [][]NoteEv // further tracks with channel events only
-	Filler  []int      // positions (indices into Tempo) before which a non-tempo meta is inserted (keeps ticks)
-	Queries []int64
+	Res    uint16
+	Tempo  []TempoEv  // track 0
+	Others [][]NoteEv // further tracks with channel events only
+	Filler []int      // positions (indices into Tempo) before which a non-tempo meta is inserted (keeps ticks)
+	// TempoPos: how many of the other tracks come BEFORE the tempo track in the file
+	TempoPos int
+	Queries  []int64
 }
 
 const horizonUS = 8 * 24 * 3600 * 1e6 // 8 days in microseconds
@@ -73,22 +75,38 @@ func run(c Case) (res ev.Result) {
 		tr.Add(d, tempoMsg(te.USPQ))
 	}
 	tr.Close(0)
-	s.Add(tr)
 	type absEv struct {
 		track int
 		abs   int64
 	}
 	var wantEvents []absEv
+	pos := c.TempoPos
+	if pos < 0 || pos > len(c.Others) {
+		pos = 0
+	}
+	trackNo := 0
 	for ti, notes := range c.Others {
+		if ti == pos {
+			s.Add(tr)
+			trackNo++
+		}
 		var t smf.Track
 		var a int64
 		for _, n := range notes {
 			a += int64(n.Delta)
 			t.Add(n.Delta, []byte{0x90 | byte(ti&15), 60, 100})
-			wantEvents = append(wantEvents, absEv{ti + 1, a})
+			wantEvents = append(wantEvents, absEv{trackNo, a})
 		}
-		t.Close(0)
+		// a closing delta, so that the track is longer than its last note
+		t.Close(uint32(ti)*7 + 3)
 		s.Add(t)
+		trackNo++
+	}
+	if pos >= len(c.Others) {
+		s.Add(tr)
+	}
+	if pos > 0 && len(c.Others) > 0 {
+		res.Classes = append(res.Classes, "tempo-track-not-first")
 	}
 	var buf bytes.Buffer
 	var back *smf.SMF
@@ -263,12 +281,13 @@ func genCase(t *rapid.T) Case {
 			}
 			c.Others = append(c.Others, notes)
 		}
+		c.TempoPos = rapid.IntRange(0, len(c.Others)).Draw(t, "tempoTrackPosition")
 	}
 	return c
 }
 
 var maps = ev.NewCheck("C11", "tempo-maps",
-	"rapid: resolution 1..32767, one tempo track with 0..40 raw FF 51 03 events (microseconds per quarter over 1..2^24-1, biased to extremes), deltas biased to 0 (repeated ticks), first event at tick 0 or later, optional non-tempo metas in between, optional 1..3 further tracks with channel events; file written and read back; queries = every tempo tick and +-1, random ticks up to min(2^32-1, 8 days of map time); oracle = exact rational integral of the tempo map (120 BPM before the first event, last event at a tick wins): |TimeAt(t) - exact| <= k+1 us (k = distinct-tick segments below t), TimeAt non-decreasing, TracksReader.Do gives AbsTicks per track and AbsMicroSeconds == TimeAt(AbsTicks); non-trivial = a query tick beyond the second tempo segment; distinct by case hash",
+	"rapid: resolution 1..32767, one tempo track with 0..40 raw FF 51 03 events (microseconds per quarter over 1..2^24-1, biased to extremes), deltas biased to 0 (repeated ticks), first event at tick 0 or later, optional non-tempo metas in between, optional 1..3 further tracks with channel events, placed before and/or after the tempo track; file written and read back; queries = every tempo tick and +-1, random ticks up to min(2^32-1, 8 days of map time); oracle = exact rational integral of the tempo map (120 BPM before the first event, last event at a tick wins): |TimeAt(t) - exact| <= k+1 us (k = distinct-tick segments below t), TimeAt non-decreasing, TracksReader.Do gives AbsTicks per track and AbsMicroSeconds == TimeAt(AbsTicks); non-trivial = a query tick beyond the second tempo segment; distinct by case hash",
 	genCase, run)
 
 func TestPropTempoMaps(t *testing.T) { maps.Rapid(t, 600, 60000) }
